@@ -6,7 +6,7 @@ from C17 import v_src, v_coq
 ID = "C18"
 GEN = []
 THEOREMS = ["C18_bind", "C18_refuted_both", "C18_refuted_splat_dup", "C18_refuted_only_named",
-            "C18_positional", "C18_too_many", "C18_unknown_named", "C18_missing", "C18_dash_underscore",
+            "C18_resplat_duplicate", "C18_positional", "C18_too_many", "C18_unknown_named", "C18_missing", "C18_dash_underscore",
             "C18_first_return"]
 COQ_HEADER = ("From Coq Require Import String List ZArith NArith.\n"
               "From RV Require Import Model.EvValue Model.EvArgs Run.C18.\n"
@@ -14,7 +14,8 @@ COQ_HEADER = ("From Coq Require Import String List ZArith NArith.\n"
 RUN_EXPR = "Run.C18.run"
 RULE = ("signatures with 0..4 parameters (names with -/_ variants, defaults that are literals, earlier/later parameters or a global), "
         "optional rest parameter x calls with 0..5 positional arguments, named arguments (known, unknown, -/_ swapped, the rest "
-        "parameter's name), list splat (comma/space list, single value, null) and map splat; plus function bodies with nested @if "
+        "parameter's name), list splat (comma/space list, single value, null), a re-splatted argument list captured by a forwarding "
+        "mixin (positional values + keywords, also colliding with explicit keywords) and map splat; plus function bodies with nested @if "
         "and @return; distinct = distinct source; non-trivial = always (a binding or an error is expected)")
 EXHAUSTIVE = {"quick": False, "thorough": False}
 TRUSTED = ["Spec/SassArgs.v: reference binder written from the property text",
@@ -96,7 +97,20 @@ def gen_call(rng, sig):
     if rng.random() < 0.22:
         keys = rng.sample(pool, min(len(pool), rng.randrange(1, 3)))
         ms = [[k, gen_atom(rng)] for k in keys]
-    return {"pos": pos, "named": named, "ls": ls, "ms": ms}
+    ar = None
+    if ls is None and rng.random() < 0.2:
+        # a splatted argument list: the rest parameter of a forwarding mixin, with positional values and keywords
+        keys = rng.sample(pool, min(len(pool), rng.choice([0, 1, 1, 2])))
+        if rng.random() < 0.35 and named:
+            keys = list(dict.fromkeys(keys + [named[0][0]]))       # a keyword also written explicitly
+        akw, seen2 = [], set()
+        for k in keys:
+            if k.replace("-", "_") in seen2 or k.replace("-", "_") == "fw":
+                continue
+            seen2.add(k.replace("-", "_"))
+            akw.append([swap(k) if rng.random() < 0.25 else k, gen_atom(rng)])
+        ar = [[gen_atom(rng) for _ in range(rng.choice([0, 0, 1, 2]))], akw]
+    return {"pos": pos, "named": named, "ls": ls, "ms": ms, "ar": ar}
 
 
 def gen_body(rng, depth):
@@ -117,8 +131,8 @@ def S(params, rest=None):
     return {"params": params, "rest": rest}
 
 
-def C(pos=(), named=(), ls=None, ms=None):
-    return {"pos": [["int", p] for p in pos], "named": [[k, ["int", v]] for k, v in named], "ls": ls, "ms": ms}
+def C(pos=(), named=(), ls=None, ms=None, ar=None):
+    return {"pos": [["int", p] for p in pos], "named": [[k, ["int", v]] for k, v in named], "ls": ls, "ms": ms, "ar": ar}
 
 
 CORPUS = [
@@ -134,6 +148,12 @@ CORPUS = [
     (S([["a", None], ["b", ["ref", "g"]]]), C([1])),
     (S([["a", None]]), C([1, 2])), (S([["a", None]]), C([], [("b", 2)])), (S([["a", None], ["b", None]]), C([1], [("a", 3)])),
     (S([["a", None], ["b", ["lit", ["int", 5]]]]), C([1], [("a", 3)])),
+    # seeded/C18-2: forward(1, $b: 2) -> pair($args..., $b: 9): duplicate argument
+    (S([["a", None], ["b", ["lit", ["int", 0]]]]), C([], [("b", 9)], None, None, [[["int", 1]], [["b", ["int", 2]]]])),
+    (S([["a", None], ["b", ["lit", ["int", 0]]]]), C([], [("b", 9)], None, None, [[["int", 1]], []])),
+    (S([["a", None], ["b", ["lit", ["int", 0]]]]), C([], [("b", 9)], None, None, [[], [["a", ["int", 1]]]])),
+    (S([["a", None]], "r"), C([7], [("b_c", 9)], None, None, [[["int", 1]], [["b-c", ["int", 2]]]])),
+    (S([["a", None], ["b", ["lit", ["int", 0]]]]), C([], [], None, [["b", ["int", 5]]], [[["int", 1]], [["b", ["int", 2]]]])),
     (S([]), C([])), (S([], "r"), C([])), (S([], "r"), C([1, 2, 3])), (S([], "r"), C([], [("u", 1)])),
 ]
 
@@ -193,9 +213,17 @@ def src_of(c):
     if call["ls"] is not None:
         pre.append("$l: %s;" % v_src(call["ls"]))
         args.append("$l...")
+    ar = call.get("ar")
+    if ar is not None:
+        args.append("$fw...")
     if call["ms"] is not None:
         pre.append("$m: (%s);" % ", ".join("%s: %s" % (k, v_src(v)) for k, v in call["ms"]))
         args.append("$m...")
+    if ar is not None:
+        # the argument list is what a forwarding mixin captured in its rest parameter
+        pre.append("@mixin fwd($fw...) { @include m(%s); }" % ", ".join(args))
+        fargs = [v_src(v) for v in ar[0]] + ["$%s: %s" % (k, v_src(v)) for k, v in ar[1]]
+        return " ".join(pre) + " q { @include fwd(%s); }" % ", ".join(fargs)
     return " ".join(pre) + " q { @include m(%s); }" % ", ".join(args)
 
 
@@ -254,9 +282,11 @@ def input_term(c):
     s = "(mkSig %s %s)" % (clist(["(%s, %s)" % (cstring(n), d_coq(d)) for n, d in sig["params"]]),
                           copt(cstring(sig["rest"]) if sig["rest"] else None))
     kv = lambda l: clist(["(%s, %s)" % (cstring(k), v_coq(v)) for k, v in l])
-    cl = "(mkCall %s %s %s %s)" % (clist([v_coq(v) for v in call["pos"]]), kv(call["named"]),
-                                   copt(v_coq(call["ls"]) if call["ls"] is not None else None),
-                                   copt(kv(call["ms"]) if call["ms"] is not None else None))
+    ar = call.get("ar")
+    cl = "(mkCall %s %s %s %s %s)" % (clist([v_coq(v) for v in call["pos"]]), kv(call["named"]),
+                                      copt(v_coq(call["ls"]) if call["ls"] is not None else None),
+                                      copt(kv(call["ms"]) if call["ms"] is not None else None),
+                                      copt("(%s, %s)" % (clist([v_coq(v) for v in ar[0]]), kv(ar[1])) if ar is not None else None))
     return f"(CBind {s} {cl})"
 
 
@@ -287,8 +317,8 @@ def shrink(c):
     for key in ("pos", "named"):
         for i in range(len(call[key])):
             yield dict(c, call=dict(call, **{key: call[key][:i] + call[key][i + 1:]}))
-    for key in ("ls", "ms"):
-        if call[key] is not None:
+    for key in ("ls", "ms", "ar"):
+        if call.get(key) is not None:
             yield dict(c, call=dict(call, **{key: None}))
     if sig["rest"]:
         yield dict(c, sig=dict(sig, rest=None))
